@@ -27,7 +27,7 @@ REQUIRED = {"interactions_resolved": 5000, "dihedrals_resolved": 2000, "wildcard
             "opls_cases": 30, "multi_line_molecules": 100, "other_moleculetype_instances": 200,
             "macros_with_function_type": 100, "macros_in_pairs": 100, "macros_defined_twice": 30,
             "generated_pairs_checked_for_symmetry": 500,
-            "conditional_alternatives_checked": 500}
+            "conditional_alternatives_checked": 500, "zero_c6_c12_entries": 100}
 TYPES = ["ta", "tb", "tc", "td", "te"]
 
 
@@ -70,6 +70,8 @@ def gen(rng):
             v = rng.uniform(0.2, 0.7)
             w = rng.uniform(0.1, 5.0)
         v, w = float(fmt(v)), float(fmt(w))
+        if comb == 1 and genpairs == "no" and t != TYPES[0] and rng.random() < 0.2:
+            v, w = 0.0, 0.0          # a type without Lennard-Jones interaction (C6 = C12 = 0), after a type that has one
         atypes[t] = (v, w)
         if opls:
             lines.append("%s %s 6 12.011 0.0 A %s %s" % (t, btypes[t], fmt(v), fmt(w)))
@@ -88,6 +90,8 @@ def gen(rng):
             else:
                 v, w = rng.uniform(0.2, 0.7), rng.uniform(0.1, 5.0)
             v, w = float(fmt(v)), float(fmt(w))
+            if comb == 1 and rng.random() < 0.1:
+                v, w = 0.0, 0.0      # an explicit pair that switches the interaction off
             if rng.random() < 0.5:
                 a, b = b, a
             nbp[frozenset((a, b))] = (v, w)
@@ -509,6 +513,8 @@ def run_case(cid, rng, workdir):
         if comb == 1:
             bump(res, "c6c12_conversions")
             c6, c12 = src
+            if c6 == 0 and c12 == 0:
+                bump(res, "zero_c6_c12_entries")
             if not (abs(4 * e * s ** 6 - c6) <= 1e-9 * abs(c6) and abs(4 * e * s ** 12 - c12) <= 1e-9 * abs(c12)):
                 back = (4 * e * s ** 6, 4 * e * s ** 12)
                 # which source would reproduce?
